@@ -501,6 +501,6 @@ func plans(tier string) []mc.Plan {
 }
 
 func init() {
-	mc.Register(&mc.Check{ID: "C06", Plans: plans, Budget: map[string]int{"quick": 150, "thorough": 2400},
+	mc.Register(&mc.Check{ID: "C06", Plans: plans, Budget: map[string]int{"quick": 240, "thorough": 2400},
 		Notes: "C06: (client program, handler program) pairs followed by a probe RPC; variant A issues the probe after quiescence with the premise (client call returned, handler returned) checked, variant B issues it immediately after the client's last call returns."})
 }
